@@ -263,7 +263,7 @@ def invalid_config(rng, res):
 def shard(shard, nshards, rng, tier, extra):
     res = Result()
     import random
-    for h in range((1500 if tier == 'quick' else 40000) // nshards):
+    for h in range((4500 if tier == 'quick' else 40000) // nshards):
         hseed = rng.getrandbits(62)                     # every history has its own generator, so that it can be replayed alone
         run_history(random.Random(hseed), res, hseed)
     for _ in range(12 if tier == 'quick' else 200): view_write_through(rng, res)
